@@ -24,6 +24,7 @@
 package enc
 
 import (
+	"bytes"
 	"encoding/binary"
 	"encoding/hex"
 	"fmt"
@@ -75,7 +76,19 @@ func localRecB() reflect.Type {
 	return reflect.TypeOf(rec{})
 }
 
+// blankRec has a RESERVED (blank) field in the middle: encoding/binary writes zeros for it and skips it on read;
+// a hand-rolled codec must step over its bytes too.  Its leaves travel as zeros.
+type blankRec struct {
+	K   uint8
+	_   [3]uint8
+	Off uint32
+	S   int16
+	_   uint16
+	T   [2]int8
+}
+
 var primTypes = map[string]reflect.Type{
+	"blank": reflect.TypeOf(blankRec{}),
 	"recA": localRecA(), "recB": localRecB(),
 	"nu8": reflect.TypeOf(namedU8(0)), "ni16": reflect.TypeOf(namedI16(0)),
 	"nu32": reflect.TypeOf(namedU32(0)), "ni64": reflect.TypeOf(namedI64(0)),
@@ -186,6 +199,17 @@ func fill(v reflect.Value, leaves []string) ([]string, error) {
 	case reflect.Struct:
 		var err error
 		for i := 0; i < v.NumField(); i++ {
+			if v.Type().Field(i).Name == "_" {
+				// a blank field cannot be set; its leaves must be zero
+				n := len(flatten(v.Field(i), nil))
+				for k := 0; k < n; k++ {
+					if len(leaves) == 0 || leaves[0] != "0" {
+						return nil, fmt.Errorf("value: a blank field carries zeros only")
+					}
+					leaves = leaves[1:]
+				}
+				continue
+			}
 			leaves, err = fill(v.Field(i), leaves)
 			if err != nil {
 				return nil, err
@@ -484,6 +508,15 @@ func Interp(toks []string) string {
 		buf := make([]byte, 0, len(encd)+len(tail))
 		buf = append(append(buf, encd...), tail...)
 		buf = buf[:len(buf):len(buf)]
+		// A caller that builds a record appends to what Encode returned.  If that slice is a window of memory the
+		// encoder keeps (a table, a pool), the append lands there: later encodings show it.
+		if len(tail) > 0 {
+			spill := append(encd, tail...)
+			_ = spill
+			if len(encd) > 0 && !bytes.Equal(encd, buf[:len(encd)]) {
+				return "ENCODING-CHANGED-BY-APPEND"
+			}
+		}
 		d := try(func() string {
 			n, dv := sp.Enc.Decode(buf)
 			out := fmt.Sprintf("%d %s", n, sp.Show(dv))
@@ -657,7 +690,7 @@ func boundaries(w int) []uint64 {
 	return out
 }
 
-var typeLeaves = []string{"u8", "u16", "u32", "u64", "i8", "i16", "i32", "i64", "nu8", "ni16", "nu32", "ni64", "f32", "f64", "recA", "recB"}
+var typeLeaves = []string{"u8", "u16", "u32", "u64", "i8", "i16", "i32", "i64", "nu8", "ni16", "nu32", "ni64", "f32", "f64", "recA", "recB", "blank"}
 
 // RandType returns a random fixed-size type term of bounded depth and its number of leaves.
 func RandType(r interface{ Intn(int) int }, depth int) (string, int) {
@@ -740,6 +773,9 @@ func RandLeaves(r interface {
 			}
 		case reflect.Struct:
 			for i := 0; i < v.NumField(); i++ {
+				if v.Type().Field(i).Name == "_" {
+					continue // blank: stays zero
+				}
 				walk(v.Field(i))
 			}
 		}
